@@ -54,6 +54,8 @@ var apiFiles = []treeFile{
 	{Name: "getvar", Src: "get:{{ total }}"},
 	{Name: "row1", Src: "row:{{ r.title }}"},
 	{Name: "row2", Src: "row:{{ r.name }}{{ r.count }}"},
+	{Name: "components/whoami", Src: "{{ who }}/{{ items.len() }}"},
+	{Name: "static", Src: "<p>@component(\"~whoami\")</p><i>@component(\"~whoami\")</i>"},
 	{Name: "poly", Src: "poly:{{ v.len() }}|{{ v }}|@if(v){{ v.len() }}@end"},
 }
 
@@ -584,7 +586,8 @@ func cmdRace(args []string) int {
 	defer f.Close()
 	w := bufio.NewWriter(f)
 	defer w.Flush()
-	allOps := []apiOp{{"String", "ok"}, {"String", "ok2"}, {"String", "ok2"}, {"String", "bare"}, {"String", "bad"}, {"String", "missing"}, {"Response", "ok"}, {"Response", "bad"},
+	allOps := []apiOp{{"String", "ok"}, {"String", "ok2"}, {"String", "ok2"}, {"String", "bare"}, {"String", "static"}, {"String", "polyS"}, {"String", "polyA"}, {"String", "polyI"},
+		{"String", "bad"}, {"String", "missing"}, {"Response", "ok"}, {"Response", "bad"},
 		{"Response", "missing"}, {"EvalString", "ok"}, {"EvalString", "bad"}, {"EvalFile", "ok"}}
 	cfgs := []apiCfg{{"t", ".tw", "", false}, {"t", ".tw", "err", false}, {"t", ".tw", "", true}, {"t", ".tw", "err", true}}
 	deadline := time.Now().Add(time.Duration(*seconds) * time.Second)
